@@ -27,7 +27,7 @@ PID = "C10"
 THEOREMS = ["frame_roundtrip", "frame_roundtrip_device", "report_roundtrip", "frames_crc_checked", "success_sound",
             "success_sound_serial", "success_complete_refuted", "short_report_refuted", "status_mirrors_device",
             "property_values_mirror_device", "packets_bounded", "data_written_once_in_order", "faultfree_refines_spec",
-            "write_reaches_memory"]
+            "write_reaches_memory", "host_terminates"]
 OPN = {1: "flash_erase_all", 2: "flash_erase_region", 3: "read_memory", 34: "read_memory(fast)", 4: "write_memory", 5: "fill_memory",
        6: "flash_security_disable", 7: "get_property", 8: "receive_sb_file", 9: "execute", 10: "call", 12: "set_property",
        13: "flash_erase_all_unsecure", 14: "efuse_program_once", 15: "efuse_read_once", 16: "flash_read_once",
@@ -455,7 +455,7 @@ def gen_call(rng, dev, big=False):
 
 def gen_live(tier, rng):
     cases = []
-    n = 40 if tier == "quick" else 400
+    n = 30 if tier == "quick" else 400
     for i in range(n):
         mps = rng.choice([8, 32, 56, 512, 1016])
         dev = mk_dev(rng, mps)
@@ -547,6 +547,223 @@ def hid_faults(reports, tier, rng):
                 out.append(("error-status", f"report {k}: device error status {st}", reports[:k] + [bytes(p)] + reports[k + 1:]))
     out.append(("report-missing", "all reports missing", []))
     return out
+
+
+# ------------------------------------------------------------------ SDP (oracle stream; SDP is not modelled in Coq)
+SDPN = {1: "read", 2: "write", 3: "write_file", 4: "write_dcd", 5: "write_csf", 6: "skip_dcd", 7: "jump_and_run", 8: "read_status",
+        9: "read_safe", 10: "write_safe"}
+SDP_OKWORD = {3: ref.SDP_FILE_OK, 4: ref.SDP_WRITE_OK, 5: ref.SDP_WRITE_OK, 2: ref.SDP_WRITE_OK, 10: ref.SDP_WRITE_OK, 6: ref.SDP_SKIP_OK}
+SDP_TAG = {3: ref.SDP_FILE, 4: ref.SDP_DCD, 5: ref.SDP_CSF, 2: ref.SDP_WRITE, 10: ref.SDP_WRITE, 6: ref.SDP_SKIP}
+
+
+def sdp_res(r):
+    if r[0] == "ok":
+        return (0, vlib.vj(r[1]), r[2])
+    if r[0] == "hang":
+        return (99, ("i", 0), r[1])
+    k = {"SdpConnectionError": 2, "SdpCommandError": 4, "SdpError": 5}.get(r[1], 6 if r[3] else 15)
+    return (k, ("i", r[2] if k == 4 else 0), r[4])
+
+
+def sdp_gen_live(tier, rng):
+    cases = []
+    for _ in range(30 if tier == "quick" else 300):
+        size = rng.choice([64, 200, 1500])
+        dev = {"base": rng.choice([0, 0x1000, 0x20000000]), "mem": rnd_bytes(rng, size), "locked": int(rng.random() < 0.2),
+               "fail": {}, "error_status": rng.choice([0xF0F0F0F0, 0x33221100])}
+        if rng.random() < 0.3:
+            dev["fail"] = {str(rng.choice([ref.SDP_FILE, ref.SDP_DCD, ref.SDP_CSF, ref.SDP_WRITE, ref.SDP_SKIP])): rng.choice([0, 0x12345678, 0x88888889])}
+        calls = []
+        for _k in range(rng.randrange(1, 7)):
+            op = rng.choice([1, 1, 2, 3, 3, 4, 5, 6, 7, 8, 9, 10])
+            ln = rng.choice([0, 1, 4, 63, 64, 65, 128, 130, size])
+            ln = min(ln, size)
+            a = dev["base"] + rng.randrange(0, size - ln + 1)
+            if op in (1, 9):
+                calls.append([op, [a if op == 1 else a - a % 4, ln, rng.choice([8, 16, 32]) if op == 9 else 32], ""])
+            elif op in (2, 10):
+                calls.append([op, [dev["base"] + 4 * rng.randrange(0, size // 4 - 1), rng.getrandbits(32), rng.choice([1, 2, 4]), 32], ""])
+            elif op in (3, 4, 5):
+                calls.append([op, [a], rnd_bytes(rng, ln if ln else 7)])
+            elif op == 7:
+                calls.append([op, [a], ""])
+            else:
+                calls.append([op, [], ""])
+        for tr in ("serial", "hid"):
+            for ce in (0, 1):
+                cases.append({"transport": tr, "cmd_exception": ce, "mode": "live", "pad": int(rng.random() < 0.5), "dev": dev, "calls": calls})
+    return cases
+
+
+def sdp_oracle_live(case, ir):
+    out = []
+    dev = case["dev"]
+    mem = bytearray(bytes.fromhex(dev["mem"]))
+    base, tr = dev["base"], case["transport"]
+    fail = {int(k): v for k, v in dev.get("fail", {}).items()}
+    for k, (c, r) in enumerate(zip(case["calls"], ir["results"])):
+        op, ints, data = c[0], c[1], bytes.fromhex(c[2])
+        res = sdp_res(r)
+        name = SDPN[op]
+        sig = f"sdp-live:{tr}:{name}"
+        if res[0] == 99:
+            out.append((sig + ":hang", f"call {k} sdp.{name} did not return"))
+            break
+        if res[0] in (6, 15):
+            out.append((sig + f":crash:{r[1]}", f"call {k} sdp.{name}{ints} raised {r[1]} on a fault-free link"))
+            continue
+        if res[0] == 2:
+            out.append((sig + ":spurious-exception", f"call {k} sdp.{name}{ints} raised SdpConnectionError on a fault-free link"))
+            continue
+        if op in (1, 9):
+            fmt = ints[2] or 32
+            if op == 9 and (ints[0] % (fmt // 8)):
+                continue
+            ln = ints[1] or (fmt // 8 if op == 9 else 0)
+            want = bytes(mem[ints[0] - base:ints[0] - base + ln])
+            if res[0] != 0 or res[1] != ("b", want):
+                out.append((sig + ":data-wrong", f"call {k} sdp.{name}({ints[0]:#x}, {ln}) returned {short(res)}, the device memory holds {want[:32].hex()} ({len(want)} B)"))
+        elif op in SDP_OKWORD:
+            tag = SDP_TAG[op]
+            good = fail.get(tag, SDP_OKWORD[op]) == SDP_OKWORD[op]
+            if good and op in (3, 4, 5):
+                mem[ints[0] - base:ints[0] - base + len(data)] = data
+            cnt = ints[2] if op in (2, 10) else 0
+            if op == 10:
+                nb = (ints[3] or 32) // 8
+                if ints[0] % nb:
+                    continue                  # documented SdpError for a misaligned address
+                cnt = min(cnt + (nb - cnt % nb) % nb, 4)
+            if good and op in (2, 10) and cnt in (1, 2, 4):
+                mem[ints[0] - base:ints[0] - base + cnt] = ints[1].to_bytes(4, "little")[:cnt]
+            if good and res[:2] != (0, ("i", 1)):
+                out.append((sig + ":failure-on-success", f"call {k} sdp.{name} -> {short(res)} although the device answered the OK word"))
+            if not good and (res[:2] == (0, ("i", 1))):
+                out.append((sig + ":success-on-error", f"call {k} sdp.{name} returned True, the device answered {fail[tag]:#x}"))
+            if not good and case["cmd_exception"] and res[0] != 4:
+                out.append((sig + ":no-exception", f"call {k} sdp.{name}: cmd_exception is set, device answered {fail[tag]:#x}, got {short(res)}"))
+        elif op == 8 and (res[0] != 0 or res[1] != ("i", dev["error_status"])):
+            out.append((sig + ":status", f"call {k} read_status returned {short(res)}, the device sent {dev['error_status']:#x}"))
+        if res[0] == 0 and op in (1, 2, 6, 7, 8, 9, 10) and r[2][0] != (2 if dev["locked"] else 0):
+            out.append((sig + ":hab", f"call {k} sdp.{name}: status_code {r[2][0]} with HAB {'locked' if dev['locked'] else 'unlocked'}"))
+    if not out and bytes(mem).hex() != ir["dev"]["mem"]:
+        out.append((f"sdp-live:{tr}:memory", "device memory after the session differs from what the successful writes say"))
+    sent = [bytes.fromhex(e[1]) for e in ir["dev"]["log"] if e[0] == "data_out"]
+    want = [bytes.fromhex(c[2]) for c, r in zip(case["calls"], ir["results"]) if c[0] in (3, 4, 5)]
+    if not out and sent != want[:len(sent)]:
+        out.append((f"sdp-live:{tr}:data-lost", "the data the device received differs from the data written"))
+    return out
+
+
+def sdp_oracle_fault(case, ir, fclass, what):
+    c = case["calls"][0]
+    op, ints, data = c[0], c[1], bytes.fromhex(c[2])
+    name, tr = SDPN[op], case["transport"]
+    r = ir["results"][0]
+    res = sdp_res(r)
+    sig = f"sdp-fault:{tr}:{name}:ce{case['cmd_exception']}:{fclass}"
+    if res[0] == 99:
+        return [(sig + ":hang", f"sdp.{name} did not return under [{what}]")]
+    if res[0] in (6, 15):
+        return [(sig + f":crash:{r[1]}", f"sdp.{name} raised {r[1]} (outside the SDP exception family) under [{what}]")]
+    if res[0] != 0 or res[1] in (("l", []), ("i", 0)):
+        return []
+    # words / data the host consumed
+    if tr == "serial":
+        st = bytes.fromhex(case["stream"])
+        consumed = st[:len(st) - ir["left"]]
+        words = [consumed[0:4], consumed[4:8]]
+        carried = consumed[4:]
+    else:
+        reps = [bytes.fromhex(x) for x in case["reports"]]
+        reps = reps[:len(reps) - ir["left"]]
+        words = [x[1:5] for x in reps][:2]
+        carried = b"".join(x[1:] for x in reps[1:] if x[:1] != b"\x03")
+    out = []
+    if op in (1, 9):
+        ln = ints[1]
+        if res[1] != ("b", carried[:ln]) or len(res[1][1]) != ln:
+            out.append((sig + ":partial-or-wrong-data", f"sdp.{name} returned {len(res[1][1])} of {ln} bytes {res[1][1][:16].hex()}; consumed input "
+                                                        f"carries {carried[:ln][:16].hex()} ({len(carried)} B) [{what}]"))
+    elif op in SDP_OKWORD and op != 8:
+        if len(words) < 2 or len(words[1]) < 4 or struct.unpack(">I", words[1])[0] != SDP_OKWORD[op]:
+            out.append((sig + ":success-without-ok", f"sdp.{name} returned True, the status word consumed is {words[1].hex() if len(words) > 1 else None} [{what}]"))
+    return out
+
+
+def sdp_faults(tr, units, tier, rng):
+    """units: serial byte stream or list of reports -> (class, what, faulted)"""
+    out = []
+    if tr == "serial":
+        n = len(units)
+        for p in range(n):
+            out.append(("truncated", f"stream truncated at {p}", units[:p]))
+            out.append(("byte-dropped", f"byte {p} dropped", units[:p] + units[p + 1:]))
+            if p < 8 or tier == "thorough":
+                s = bytearray(units)
+                s[p] ^= 1 << rng.randrange(8)
+                out.append(("bitflip", f"bit of byte {p} flipped", bytes(s)))
+        for w in (0, 0x12345678, ref.SDP_LOCKED):
+            for o in (0, 4):
+                if o + 4 <= n:
+                    out.append(("status-replaced", f"word at {o} replaced by {w:#x}", units[:o] + struct.pack(">I", w) + units[o + 4:]))
+    else:
+        for k, r in enumerate(units):
+            out.append(("report-missing", f"report {k} missing", units[:k] + units[k + 1:]))
+            out.append(("report-duplicated", f"report {k} duplicated", units[:k + 1] + units[k:]))
+            for p in sorted({1, 2, 3, 4, len(r) - 1} & set(range(1, len(r)))):
+                out.append(("report-truncated", f"report {k} truncated to {p} bytes", units[:k] + [r[:p]] + units[k + 1:]))
+            out.append(("report-id", f"report {k} with id {r[0] ^ 7}", units[:k] + [bytes([r[0] ^ 7]) + r[1:]] + units[k + 1:]))
+            if len(r) == 5:
+                for w in (0, 0x12345678, ref.SDP_LOCKED):
+                    out.append(("status-replaced", f"report {k}: word replaced by {w:#x}", units[:k] + [r[:1] + struct.pack(">I", w)] + units[k + 1:]))
+        out.append(("report-missing", "all reports missing", []))
+    return out
+
+
+SDP_FAULT_CALLS = [("read 70 B", [1, [0x1004, 70, 32], ""]), ("write register", [2, [0x1000, 0xAABBCCDD, 4, 32], ""]),
+                   ("write_file 9 B", [3, [0x1010], "0102030405060708ff"]), ("write_dcd", [4, [0x1020], "aa55aa55"]),
+                   ("skip_dcd", [6, [], ""]), ("read_status", [8, [], ""]), ("jump", [7, [0x1000], ""])]
+
+
+def sdp_stream(rep, tier, rng):
+    """SDP / i.MX ROM: live sessions against the reference device and single faults on short traces, judged by spec
+    oracles only (there is no Coq model of SDP: this part of C10 is exploration, not proof)."""
+    live = sdp_gen_live(tier, rng)
+    lr = vlib.run_impl("c10_impl.py", {"sdp_cases": live}, timeout=3000)["sdp_cases"]
+    for c, ir in zip(live, lr):
+        for sig, msg in sdp_oracle_live(c, ir):
+            rep.failing(sig, msg, {"kind": "sdp-live", "case": c, "impl": ir["results"]})
+    rep.add_stream("SDP live call sequences (oracles only)", len(live),
+                   len({(c["transport"], c["cmd_exception"], repr(c["calls"]), repr(ir["results"])) for c, ir in zip(live, lr)}),
+                   samples=[{"transport": c["transport"], "calls": c["calls"]} for c in live[:2]])
+    fcases, fwhat = [], []
+    dev = {"base": 0x1000, "mem": bytes(range(200)).hex(), "fail": {}}
+    for name, call in SDP_FAULT_CALLS:
+        base = {"cmd_exception": 0, "mode": "live", "dev": dev, "calls": [call], "pad": 0}
+        r = vlib.run_impl("c10_impl.py", {"sdp_cases": [dict(base, transport="serial"), dict(base, transport="hid")]})["sdp_cases"]
+        stream = b"".join(bytes.fromhex(x) for x in r[0]["reads"])
+        reports = [bytes.fromhex(x) for x in r[1]["reads"]]
+        sf, hf = sdp_faults("serial", stream, tier, rng), sdp_faults("hid", reports, tier, rng)
+        for ce in (0, 1):
+            sc = {"cmd_exception": ce, "mode": "script", "calls": [call], "time_limit": 5}
+            for fc, what, s_ in [("none", "no fault", stream)] + sf:
+                fcases.append(dict(sc, transport="serial", stream=s_.hex()))
+                fwhat.append((fc, f"{name}: {what}"))
+            for fc, what, rs in [("none", "no fault", reports)] + hf:
+                fcases.append(dict(sc, transport="hid", reports=[x.hex() for x in rs]))
+                fwhat.append((fc, f"{name}: {what}"))
+    fr = vlib.run_impl("c10_impl.py", {"sdp_cases": fcases}, timeout=3000)["sdp_cases"]
+    kinds = {}
+    for c, ir, w in zip(fcases, fr, fwhat):
+        k0 = sdp_res(ir["results"][0])[0]
+        kinds[k0] = kinds.get(k0, 0) + 1
+        for sig, msg in sdp_oracle_fault(c, ir, w[0], w[1]):
+            rep.failing(sig, msg, {"kind": "sdp-fault", "fault": w[1], "case": c, "impl": ir["results"]})
+    rep.add_stream("SDP single faults on short traces (oracles only)", len(fcases),
+                   len({(c["transport"], c.get("stream", repr(c.get("reports"))), c["cmd_exception"]) for c in fcases}),
+                   samples=[{"fault": w[1], "transport": c["transport"]} for c, w in list(zip(fcases, fwhat))[1:3]],
+                   extra={"outcome_kinds": {str(k): v for k, v in sorted(kinds.items())}})
 
 
 # ------------------------------------------------------------------ the check
@@ -662,7 +879,7 @@ def run(tier):
 
     # ---- fault injection on short single-call traces
     fcases, fwhat = [], []
-    for name, mkcall in FAULT_CALLS:
+    for name, mkcall in (FAULT_CALLS if tier == "thorough" else [fc_ for fc_ in FAULT_CALLS if fc_[0] not in ("receive sb", "read once")]):
         for mps in ([8] if tier == "quick" else [8, 32]):
             dev = mk_dev(rng, mps, 64)
             dev["fuses"] = {"3": 0x0F0F, "4": 0x1234}
@@ -717,6 +934,11 @@ def run(tier):
                    len({(c["transport"], c.get("stream", repr(c.get("reports"))), c["cmd_exception"]) for c in fcases}),
                    samples=[{"fault": w[1], "transport": c["transport"], "stream": c.get("stream", c.get("reports"))} for c, w in list(zip(fcases, fwhat))[1:3]],
                    exhaustive=(tier == "thorough"), extra={"outcome_kinds": {str(k): v for k, v in sorted(kinds.items())}})
+
+    try:
+        sdp_stream(rep, tier, rng)
+    except Exception as ex:  # noqa
+        rep.obligation("sdp:oracle stream runs", False, repr(ex))
 
     return rep.finish(
         rule="live: seeded call sequences (1..8 calls, lengths at packet-size boundaries, both transports, both cmd_exception settings) "
